@@ -1,6 +1,7 @@
 import StorageModel.Driver.Common
 import StorageModel.C12.Spec
 import StorageModel.C12.Lex
+import StorageModel.C12.Classes
 import StorageModel.Generated.Grammar
 /- model driver for C12: `run spec` reads case lines on stdin and prints one output line per case
    (spec = false: the engine model's output; spec = true: the spec's verdict).
@@ -17,6 +18,9 @@ import StorageModel.Generated.Grammar
        Spec: intended reading of the *base* skeleton.  Output `ok - <bits over the rows>` | …
    x <hex of a damaged spelling> <truth vectors>
        model as for `r`; the spec has no opinion (`any`).
+   c <letter>
+       the typed class of operation atom <letter> (round 8): `class <Go struct> <GetType() constant>`; the struct
+       from `rClass` below, the constant from the regenerated class table.  Spec: `any`.
    D <case>
        the case `<case>` under the process-wide switch `ast.EnableQueryDebug = true`: same answers. -/
 namespace StorageModel.Driver.C12
@@ -43,6 +47,65 @@ def toksOfString (s : String) : Option (List (Tok Nat)) :=
   s.toList.mapM tokOfChar
 
 def isBoolSym (i : Nat) : Bool := i != 25
+
+/-- k-cases: the symbols `pa`..`py` are of bool type (typed `BoolSymbolNode`), `strz` (index 25) of string type -/
+def kClass (i : Nat) : String := if i == 25 then "StringSymbolNode" else "BoolSymbolNode"
+
+/-- r / x cases: the Go struct the typing stage builds for operation atom <letter> (index = `atomIndex`) of
+    harness/c12_atoms.go — compared with the real typed node by the `c` cases on every run -/
+def rClassTable : List (Nat × String) := [
+  (0, "BoolSymbolNode"),
+  (1, "BoolSymbolNode"),
+  (2, "BinaryInt64ExprNode"),
+  (3, "BinaryStringExprNode"),
+  (4, "InInt64ArrayExprNode"),
+  (5, "Int64BetweenExprNode"),
+  (6, "BinaryStringExprNode"),
+  (7, "NotExprNode"),
+  (8, "BinaryStringExprNode"),
+  (9, "BinaryStringExprNode"),
+  (10, "BinaryInt64ExprNode"),
+  (11, "BinaryStringExprNode"),
+  (12, "NotExprNode"),
+  (13, "InStringArrayExprNode"),
+  (14, "BinaryInt64ExprNode"),
+  (15, "BinaryInt64ExprNode"),
+  (16, "BinaryInt64ExprNode"),
+  (17, "BinaryStringExprNode"),
+  (18, "BinaryStringExprNode"),
+  (19, "BinaryInt64ExprNode"),
+  (20, "BinaryBoolExprNode"),
+  (21, "BinaryBoolExprNode"),
+  (22, "AnyOfSetExprNode"),
+  (23, "IsEmptySetExprNode"),
+  (24, "AllOfSetExprNode"),
+  (26, "BinaryDatetimeExprNode"),
+  (27, "BinaryDatetimeExprNode"),
+  (28, "BinaryDatetimeExprNode"),
+  (29, "InDatetimeArrayExprNode"),
+  (30, "DatetimeBetweenExprNode"),
+  (32, "NotExprNode"),
+  (33, "BinaryDatetimeExprNode"),
+  (34, "BinaryInt64ExprNode"),
+  (35, "BinaryInt64ExprNode"),
+  (36, "IsEmptySetExprNode"),
+  (37, "AnyOfSetExprNode"),
+  (38, "IsNilExprNode"),
+  (39, "IsNilExprNode"),
+  (40, "AnyOfSetExprNode"),
+  (41, "BinaryFloat64ExprNode"),
+  (42, "BinaryFloat64ExprNode"),
+  (43, "BinaryFloat64ExprNode"),
+  (44, "BinaryFloat64ExprNode"),
+  (46, "BinaryFloat64ExprNode"),
+  (47, "Float64BetweenExprNode"),
+  (48, "InFloat64ArrayExprNode"),
+  (49, "NotExprNode"),
+  (50, "BinaryFloat64ExprNode"),
+  (51, "BinaryFloat64ExprNode")]
+
+/-- any other word of an r / x case is one of the harness's extra symbols (boolean) -/
+def rClass (i : Nat) : String := (rClassTable.lookup i).getD "BoolSymbolNode"
 
 def showAtom : Atom Nat → String
   | .sym i => String.singleton (Char.ofNat ('a'.toNat + i))
@@ -104,21 +167,33 @@ def mapAtoms (ts : List (Tok (List Char))) : Option (List (Tok Nat)) :=
     | .lp => some .lp
     | .rp => some .rp
 
-/-- the model of the whole of `ast.Parse` on a token skeleton, instantiated with everything
+/-- the model of the whole of `ast.Parse` on a token skeleton whose atoms are typed as `cls` says
+    (round 8: `queryCT` = `queryT` with the interface assertion `.(BoolNode)` of the pinned
+    TypeTransformBool bodies decided from the regenerated class table), instantiated with everything
     /verif/extract regenerates (parser numbers, listener shape, typing / evaluation shape);
     `none` = a regenerated shape the model has no interpretation for -/
-def modelQuery (ts : List (Tok Nat)) : Option (Res Nat) :=
-  queryT Generated.boolTransform Generated.boolListener Generated.boolExprParser isBoolSym ts
+def modelQuery (cls : Nat → String) (ts : List (Tok Nat)) : Option (Res Nat) :=
+  queryCT Generated.boolTransform Generated.C10.classTable Generated.boolListener Generated.boolExprParser cls ts
 
 partial def step (line : String) : String :=
   match splitSp line with
   | ["k", n, sk] =>
     match toksOfString sk with
     | some ts =>
-      match modelQuery ts with
+      match modelQuery kClass ts with
       | some res => showRes n.toNat! res
       | none => "no-model"
     | none => "bad-case"
+  | ["c", letter] =>
+    match letter.toList with
+    | [ch] =>
+      match atomIndex ch with
+      | some i =>
+        if (rClassTable.lookup i).isSome then
+          "class " ++ rClass i ++ " " ++ ClassTable.getType Generated.C10.classTable (rClass i)
+        else "bad-case"
+      | none => "bad-case"
+    | _ => "bad-case"
   | ["x", spelled, vecs] => step ("r - " ++ spelled ++ " " ++ vecs)
   | ["r", _base, spelled, vecs] =>
     match StorageModel.Bytes.ofHex spelled with
@@ -131,7 +206,7 @@ partial def step (line : String) : String :=
         match mapAtoms ts with
         | none => "parse-error"
         | some ts' =>
-          match modelQuery ts' with
+          match modelQuery rClass ts' with
           | some res => showRows vs res
           | none => "no-model"
     | none => "bad-case"
@@ -144,6 +219,7 @@ def specStep (line : String) : String :=
     | some ts => showRes n.toNat! (specQuery isBoolSym ts)
     | none => "bad-case"
   | ["x", _, _] => "any"
+  | ["c", _] => "any"
   | ["r", base, _spelled, vecs] =>
     match toksOfString base with
     | some ts => showRows (parseVecs vecs) (specQuery isBoolSym ts)
